@@ -139,7 +139,10 @@ static bool build_case(uint64_t run_seed, Case &c) {
         Input in; in.td = pool[r.below(pool.size())];
         void *st = nullptr;
         { uint64_t vs = r.next(); size_t budget = 8 + r.below(120);
-          if(fillable(in.td)) st = random_value(in.td, vs, budget);
+          // hand-written seed values take turns with asn_random_fill where both exist: the random filler rarely produces strings that
+          // fit a permitted alphabet, so without them the PER value maps (and whatever the compiler emits for them) would hardly run
+          auto seeds = seed_value_texts(in.td);
+          if(fillable(in.td) && (seeds.empty() || vs % 3 != 0)) st = random_value(in.td, vs, budget);
           else { auto texts = seed_value_texts(in.td); if(!texts.empty()) st = value_from_xer(in.td, texts[vs % texts.size()]); } }
         if(!st) continue;
         for(Syntax sy : syns) { EncResult e = encode_to_vec(in.td, st, sy); if(!e.aborted && e.encoded >= 0 && e.out.size() <= 4096) { if(sy == SY_XER || sy == SY_CXER) xer_strip_trailing_ws(e.out); in.enc[sy] = e.out; } }
